@@ -32,6 +32,13 @@ def classify(why, f, c, o):
     # D15: worker dies after writing its exit announcement, still holding the result-queue write lock
     if hang and "rq.wlock.rel" in crash_at:
         return {"defect": "D15"}
+    # D4: final liveness poll of _resize on a stale snapshot
+    if f.get("end") in ("livelock", "diverges") and "reuse" in ops and any(("@is_alive" in b or b.endswith("@sleep")) and b.startswith("u") for b in blocked):
+        return {"defect": "D4"}
+    # D18: explicit shutdown(wait=False) of the reusable executor racing with a resize by another thread: _resize spawns
+    #      workers on an executor whose manager is already in its final join
+    if hang and "reuse" in ops and "shutdown:nowait" in ops and len(c["scn"]["users"]) > 1 and any(b.startswith("mgr@pjoin") for b in blocked) and not f["crashes"]:
+        return {"defect": "D18"}
     # D17: the last pending work item is a cancelled one: it is dropped without any event and the manager goes back to sleep
     #      although a shutdown / interpreter exit is waiting for it
     if hang and "cancel" in ops and mgr_wait and not f["crashes"] and "del" not in ops and not o.get("pending") \
